@@ -69,8 +69,10 @@ class StubRng:
         self.pos[role] += 1
         return loc + scale * z
 
+    default_pick = 0
+
     def pick_at(self, i):
-        return self.picks[i] if i < len(self.picks) else 0
+        return self.picks[i] if i < len(self.picks) else self.default_pick
 
     def choice(self, a, p=None):
         k = self.pick_at(self.pi)
@@ -92,7 +94,8 @@ def gen_structure(tps, wmean, npipes, nops, ratio, probs, c0=0, c1=0, c2=0, zc0=
                   zg0=0.0, K=6, want=""):
     """Run the real generator for K ticks with stubbed draws; check every arrival event."""
     g = WorkloadGenerator(**_params(tps, wmean, npipes, nops, ratio, probs))
-    rng = StubRng([zc0, zc1], [zp0, zp1, zp2], [zg0], [c0, c1, c2])
+    rng = StubRng([zc0, zc1][:npipes], [zp0, zp1, zp2], [zg0], [c0, c1, c2][:npipes])
+    rng.default_pick = [k for k in range(3) if probs[k] > 0][0]      # later events: first class that can occur
     g.rng = rng
     mean_ticks = int(wmean * tps)      # exact on the chosen domains (dyadic or integral)
     seen_ids = set()
